@@ -7,13 +7,21 @@
   reaction / connectLoop / epoch teardown+join / transport Start-Stop with the start gate, for every
   configuration satisfying the stated hypotheses and every action list (= every interleaving).
   Lock-protected critical sections and single atomics are the atomic actions (see the model header).
+  Three groups: SAFETY (an inductive invariant: no orphan generation, idempotence, no reconnect after
+  Close, publishMu linearisation), TERMINATION of Close (deadlock freedom from a second invariant + a
+  natural-number variant that every library action decreases: `close_terminates`, with the environment
+  accounted for explicitly), and REOPEN FRESHNESS (a bisimulation up to renaming of epoch / loop indices
+  with equal observable traces: `reopen_is_fresh`).  None of the theorems is partial.
 
   WHAT IS OBSERVED, NOT PROVED (per history, by harness/c10.go on the real code): goroutine / socket /
-  listener leak freedom, wall-clock bounds (Close ≤ close-timeout + slack), absence of panics, behaviour
-  of sends and UpdateConfigOptions racing the lifecycle, the bounded-join timeout path (abandoned
-  stragglers), and that the real scheduler is fair enough to take the terminating schedule.
+  listener leak freedom, wall-clock bounds (Close ≤ close-timeout + slack; an in-flight dial is aborted by
+  the teardown), absence of panics, behaviour of sends and UpdateConfigOptions racing the lifecycle, the
+  bounded-join timeout path (abandoned stragglers), and that the real scheduler is fair enough (runs a
+  runnable library goroutine eventually), which is what turns "every run of a pending Close is finite and
+  ends closed" into "Close returns".
 -/
-import GoSecs.Lemmas.Lifecycle
+import GoSecs.Lemmas.LifecycleTerm
+import GoSecs.Lemmas.LifecycleSim
 
 namespace GoSecs.Props.C10
 open GoSecs.Lifecycle
@@ -168,16 +176,10 @@ theorem open_fresh (active : Bool) (m : Mode) :
   intro e' ep hne hep
   cases e' <;> simp_all
 
-/-- **Reopen is fresh (partial).** From ANY closed configuration the same two steps are enabled without
-    waiting and produce the same armed shape as on a never-opened connection, up to the epoch's index and
-    the fence counter; all residue of earlier cycles is joined generations and exited loops, which
-    `closed_dead`-style reasoning shows inert. PARTIAL: this is the entry of Open; that every later
-    behaviour coincides with a fresh connection's (a bisimulation up to renaming of epoch indices) is not
-    proved — the harness observes it (reopen + Select + round trip after every history). Note that every
-    safety theorem above (`invariant_reachable`, `no_orphan_generation`, `close_never_stuck`, …) quantifies
-    over ALL action lists, hence over runs with any number of Close/Open cycles: a reopened connection
-    enjoys exactly the guarantees of a fresh one; only behavioural equivalence is left unproved. -/
-theorem reopen_is_fresh_partial (c : Cfg) (h : Closed c) (m : Mode) :
+/-- **Reopen, entry.** From ANY closed configuration Open's first two steps are enabled without waiting and
+    produce the same armed shape as on a never-opened connection, up to the epoch's index and the fence
+    counter. (The behavioural statement is `reopen_is_fresh` below.) -/
+theorem reopen_entry_fresh (c : Cfg) (h : Closed c) (m : Mode) :
     FreshlyArmed (run c [.openEnter m, .openArm]) m c.epochs.length := by
   obtain ⟨s, hs, hpc⟩ := h.sup
   have hl := h.loops
@@ -211,6 +213,85 @@ theorem reopen_is_fresh_partial (c : Cfg) (h : Closed c) (m : Mode) :
     rw [List.getElem?_append_left hlt] at hep
     exact (h.epochs e' ep hep).1 hpub
 
+/-! ### Reopen is fresh: a bisimulation up to renaming
+
+  The model never garbage-collects: a reopened connection carries its joined generations and exited
+  reconnect loops in front of the new ones, and its fence counter / Reconnects() gauge / dial count do not
+  restart at zero.  `emb r c₂` (GoSecs/Lemmas/LifecycleSim.lean) is the configuration `c₂` with the residue
+  `r` put in front: epoch indices shifted by `|r.oldE|`, loop indices by `|r.oldL|`, the three counters
+  offset; `shAct r a` is the action `a` on the shifted indices; `renOf c` is the residue a closed
+  configuration `c` leaves.  `Sim c m c₁ c₂` relates the reopened connection (left) to a first-time-opened one
+  (right), both with an `Open m` past its guard: either both sit between guard and arming
+  (`connectLoopWg.Wait()`), or `c₁ = emb (renOf c) c₂` — equality of the WHOLE configuration up to the
+  renaming, which is the strongest relation there is.  `obsOf kr kd` is what the outside sees: `State()`,
+  which API call is in flight and at which wait, what an Open / a Close issued now would answer
+  (ErrAlreadyOpen / ErrNotOpen), whether the transport holds a socket or listener, whether a first accept
+  is still owed, the Reconnecting gauge (live loops), and Reconnects() and the dial/listen count read
+  relative to their values at the reopen.  (State-change NOTIFICATIONS are not in the lifecycle model —
+  they are C05's; `State()` is.) -/
+
+/-- **The renaming commutes with every one of the 34 actions** — library, environment and API alike, in
+    every configuration whatsoever (no reachability or invariant needed): the renamed action on the
+    configuration-with-residue does exactly what the action does on the configuration without, and is
+    enabled exactly when it is. Old loops only have to have exited. -/
+theorem reopen_step_commutes (r : Ren) (hL : ∀ l ∈ r.oldL, l.pc = .exited) (c : Cfg) (a : Act) :
+    step? (emb r c) (shAct r a) = (step? c a).map (emb r) :=
+  step?_emb r hL c a
+
+/-- …and the remaining actions of the configuration-with-residue — those that name an OLD generation or
+    an OLD loop — are all disabled: the residue is dead weight. -/
+theorem reopen_residue_dead (r : Ren) (hr : r.Inert) (c : Cfg) (a₁ : Act) (h : unshAct r a₁ = none) :
+    step? (emb r c) a₁ = none :=
+  step?_emb_old r hr c a₁ h
+
+/-- **`Sim` is a bisimulation with equal observations**, one step: from related configurations,
+    (→) every enabled action of the reopened connection is the renaming of an enabled action of the fresh
+        one, with related successors;
+    (←) every enabled action of the fresh connection is enabled, renamed, on the reopened one, with related
+        successors;
+    and related configurations are observably equal. `Sim` starts at Open's guard (next theorem). -/
+theorem reopen_bisimulation (c : Cfg) (h : Closed c) (hnc : supSt c = .nc) (m : Mode) (c₁ c₂ : Cfg)
+    (hs : Sim c m c₁ c₂) :
+    (∀ a₁ c₁', step? c₁ a₁ = some c₁' →
+        ∃ a₂ c₂', a₁ = shAct (renOf c) a₂ ∧ step? c₂ a₂ = some c₂' ∧ Sim c m c₁' c₂') ∧
+    (∀ a₂ c₂', step? c₂ a₂ = some c₂' →
+        ∃ c₁', step? c₁ (shAct (renOf c) a₂) = some c₁' ∧ Sim c m c₁' c₂') ∧
+    obsOf c.reconnects c.dials c₁ = obsOf 0 0 c₂ :=
+  ⟨sim_forward c h m c₁ c₂ hs, sim_backward c h m c₁ c₂ hs, sim_obs c h hnc m c₁ c₂ hs⟩
+
+/-- **Reopen is fresh.** Let `c` be ANY closed configuration (what a completed Close or a rolled-back Open
+    leaves; for reachable ones `supSt c = .nc` holds, `reachable_closed_nc`). Enter `Open m` on it, and
+    enter `Open m` on a never-opened connection of the same role. Then
+    (→) every run of the reopened connection — any interleaving of library, environment and further API
+        actions, including later Close/Open cycles — is, action for action up to the renaming of epoch and
+        loop indices, a run of the fresh connection, the end configurations are related by `Sim`, and the
+        two OBSERVABLE TRACES (the observation after every step) are EQUAL;
+    (←) conversely every run of the fresh connection is matched by the reopened one, with equal observable
+        traces.
+    So any observable trace after a completed Close + Open is a trace of a fresh connection, and vice
+    versa. -/
+theorem reopen_is_fresh (c : Cfg) (h : Closed c) (hnc : supSt c = .nc) (m : Mode) :
+    step? c (.openEnter m) = some (reopenJoin c m) ∧
+    step? (init c.active) (.openEnter m) = some (freshJoin c.active m) ∧
+    Sim c m (reopenJoin c m) (freshJoin c.active m) ∧
+    (∀ as₁ c₁', exec? (reopenJoin c m) as₁ = some c₁' →
+      ∃ as₂ c₂', as₁ = as₂.map (shAct (renOf c)) ∧ exec? (freshJoin c.active m) as₂ = some c₂' ∧ Sim c m c₁' c₂' ∧
+        otrace c.reconnects c.dials (reopenJoin c m) as₁ = otrace 0 0 (freshJoin c.active m) as₂) ∧
+    (∀ as₂ c₂', exec? (freshJoin c.active m) as₂ = some c₂' →
+      ∃ c₁', exec? (reopenJoin c m) (as₂.map (shAct (renOf c))) = some c₁' ∧ Sim c m c₁' c₂' ∧
+        otrace c.reconnects c.dials (reopenJoin c m) (as₂.map (shAct (renOf c))) =
+          otrace 0 0 (freshJoin c.active m) as₂) :=
+  ⟨step_openEnter_closed c h m, step_openEnter_init c.active m, Sim.join,
+   fun as₁ c₁' hr => sim_run_forward c h hnc m _ _ Sim.join as₁ c₁' hr,
+   fun as₂ c₂' hr => sim_run_backward c h hnc m _ _ Sim.join as₂ c₂' hr⟩
+
+/-- Every reachable closed configuration reads NotConnected (so `reopen_is_fresh` applies to every closed
+    configuration a real history can produce, whether it was left by Close or by a rolled-back Open). -/
+theorem reachable_closed_nc (active : Bool) (as : List Act)
+    (hapi : (run (init active) as).api = .idle) (hsd : (run (init active) as).shutdown = true) :
+    Closed (run (init active) as) ∧ supSt (run (init active) as) = .nc :=
+  ⟨closed_of_inv _ (invariant_reachable active as) hapi hsd,
+   (inv3_run _ as (inv3_init active)).rb (Or.inr (Or.inr ⟨hapi, hsd⟩))⟩
 
 /-! ## Termination -/
 
@@ -233,17 +314,10 @@ def closeSchedule (e : Nat) : List Act :=
   [.closeEnter, .closeRequest, .supStep, .reactCheck, .reactTeardown, .closeTeardown,
    .joinSeal e, .joinStop e, .joinDone e, .closeEpochDone, .supExit, .closeSupDone, .closeLoopsDone]
 
-/-- **Close terminates (partial).** From an established generation with an idle, drained supervisor and
-    no live reconnect loop, thirteen library steps — none of which waits on the peer or on a timer —
-    complete Close: the api is idle again, `shutdown` is set, the generation is joined, the supervisor
-    has exited, State() is NotConnected.
-    PARTIAL: deadlock freedom is proved for every reachable configuration (`close_never_stuck`), and so are
-    the facts each wait relies on (`close_pins_current`, `no_orphan_generation`); what is NOT proved is
-    the variant — that the enabled library actions cannot go on for ever (a measure over queue length,
-    supervisor stage, epoch phases and loop positions that every library action decreases while
-    `shutdown` is set). This theorem gives a representative terminating schedule instead. Wall-clock boundedness of the real waits (bounded join,
-    interrupted backoff) is OBSERVED by the harness (Close latency oracle, close-during-long-backoff). -/
-theorem close_terminates_model_partial (c : Cfg) (e : Nat) (s : Sup) (h : Established c e s)
+/-- A representative schedule: from an established generation with an idle, drained supervisor and no
+    live reconnect loop, thirteen library steps — none of which waits on the peer or on a timer —
+    complete Close. (Used for non-vacuity below; the general statement is `close_terminates`.) -/
+theorem close_schedule_completes (c : Cfg) (e : Nat) (s : Sup) (h : Established c e s)
     (hapi : c.api = .idle) (hl : loopsExited c = true) :
     let c' := run c (closeSchedule e)
     c'.api = .idle ∧ c'.shutdown = true ∧ phaseOf c' e = .done ∧ supSt c' = .nc ∧
@@ -254,8 +328,109 @@ theorem close_terminates_model_partial (c : Cfg) (e : Nat) (s : Sup) (h : Establ
   subst hidle hq hopen
   have he : e < c.epochs.length := (List.getElem?_eq_some_iff.1 hlive).1
   have hl' : loopsExited { c with shutdown := true } = true := hl
-  simp_all [run, step, step?, closeSchedule, inject, setSup, teardown, phaseOf, setPhase, supSt, isDone,
+  simp_all [run, step, step?, closeSchedule, inject, injectOk, eventsCap, setSup, teardown, phaseOf, setPhase, supSt, isDone,
     loopsExited]
+
+/-! ### The variant
+
+  `mu : Cfg → Nat` (GoSecs/Lemmas/LifecycleTerm.lean) is the weighted sum
+      apiRank(api pc) + 10·|supervisor queue| + runRank(supervisor pc) + Σ_epochs phaseRank + Σ_loops loopRank
+  with  phaseRank live,torn,sealed,stopped,done = 4,3,2,1,0;
+        loopRank  start,failWait,waitPrev,sleep,fence,publish,exited = 5,4,4,3,2,1,0;
+        runRank   reactCheck,reactSpawn,reactTeardown,closeTeardown,idle,exited = 9,8,3,2,1,0
+                  (reactSpawn pays for the loop it is about to add);
+        apiRank   closeReq 14 (it is about to enqueue evClose), closeWaitEpoch 3, closeJoinSup 2,
+                  closeJoinLoops 1, openRollbackWait 2, openRollbackSup 1, everything else 0.
+  `pend? c as = some c'` (ibid.) says: `as` is a run from `c` — every action enabled in turn, library and
+  environment actions in ANY interleaving — during which the Close is still pending in every configuration
+  an action is taken from.
+
+  THE ENVIRONMENT, honestly.  While a Close is pending, `lifeMu` is held, so Open/Close entries, Open's own
+  dial and `waitSelected` are disabled (not a hypothesis: `mu_step` derives it).  What remains enabled
+  besides the library:
+    * `loopStartOk i`  — a re-dial already in flight completes; it is a progress action (decreases `mu`);
+    * `envAccept / envSelected / envSelectLost` — peer activity on the generation being closed; they leave
+      `mu` unchanged, and stop being enabled once `tr.Stop` has joined the transport (`joinStop`);
+    * `envDown / envT7` — a transport goroutine reports a failure; each adds ONE queued event (+10).
+      In the code each transport goroutine calls `TCPDown`/`T7Expired` at most once per generation and
+      blocks in it while the 16-slot events channel is full; the model lets them repeat while the
+      transport still runs the generation, so their number appears EXPLICITLY in the bound instead of
+      being assumed away.
+  RESIDUAL (what the model abstracts, not a hypothesis of the theorems): the bounded joins (`tr.Stop`,
+  task join) are modelled as always-completing actions `joinStop`/`joinDone`; in the code they complete
+  when the handlers return or when the close timeout fires (abandoning the straggler) — the timeout path
+  and wall-clock bounds are OBSERVED by the harness. That the Go scheduler eventually runs a runnable
+  library goroutine (weak fairness) is what turns "every run is finite" into "Close returns". -/
+
+/-- **The variant, one inequality for all 34 actions.** In every reachable configuration with a Close (or
+    a failed Open's rollback) pending, every enabled action `a` satisfies
+        mu c' + [a is a progress action] ≤ mu c + 10·[a is a failure injection],
+    and afterwards the Close is still pending or has returned into the closed configuration. -/
+theorem close_variant (active : Bool) (pre : List Act) (a : Act) (c' : Cfg)
+    (hc : closingApi (run (init active) pre).api = true)
+    (hs : step? (run (init active) pre) a = some c') :
+    mu c' + progressCost a ≤ mu (run (init active) pre) + injectCost a ∧
+      (closingApi c'.api = true ∨ (c'.api = .idle ∧ Closed c' ∧ supSt c' = .nc)) := by
+  have h3 := inv3_run _ pre (inv3_init active)
+  generalize run (init active) pre = c at hc hs h3
+  have hsd : c.shutdown = true := h3.i1.S1 true (apiShut_of_closing _ hc)
+  refine ⟨mu_step c c' a hsd hc hs, ?_⟩
+  rcases (closing_step c c' a hc hs).2 with h | h
+  · exact Or.inl h
+  · exact Or.inr ⟨h, close_return c c' a h3 hc hs h⟩
+
+/-- **Close terminates.** From EVERY reachable configuration `c` with a Close (or a failed Open's
+    rollback) pending, and for EVERY run `as` of the pending Close (`pend?`: library and environment
+    actions in any interleaving):
+    1. *finiteness, with an explicit bound* — the number of progress actions in `as` (library steps and
+       completing re-dials) is at most `mu c + 10·(failure injections in as)`; in particular a run of
+       library actions alone has length ≤ `mu c`;
+    2. *where it ends* — the run ends with the Close still pending or returned into `Closed` with state
+       NotConnected; if it is maximal (no library action enabled at its end) Close HAS returned: api idle,
+       every published generation joined, every loop exited, supervisor exited, transport idle, state
+       NotConnected;
+    3. *completion is always possible* — from the end of the run, if the Close is still pending, library
+       actions alone complete it within `mu` further steps (so no interleaving can paint Close into a
+       corner). -/
+theorem close_terminates (active : Bool) (pre as : List Act) (c' : Cfg)
+    (hc : closingApi (run (init active) pre).api = true)
+    (hrun : pend? (run (init active) pre) as = some c') :
+    (as.countP isProgressAct + mu c' ≤ mu (run (init active) pre) + 10 * as.countP isInjectAct) ∧
+    ((∀ a ∈ as, isLibAct a = true) → as.length ≤ mu (run (init active) pre)) ∧
+    (closingApi c'.api = true ∨ (c'.api = .idle ∧ Closed c' ∧ supSt c' = .nc)) ∧
+    ((∀ a, isLibAct a = true → step? c' a = none) → c'.api = .idle ∧ Closed c' ∧ supSt c' = .nc) ∧
+    (closingApi c'.api = true →
+      ∃ (bs : List Act) (c'' : Cfg), (∀ b ∈ bs, isLibAct b = true) ∧ pend? c' bs = some c'' ∧
+        bs.length ≤ mu c' ∧ c''.api = .idle ∧ Closed c'' ∧ supSt c'' = .nc) := by
+  have h3 := inv3_run _ pre (inv3_init active)
+  generalize run (init active) pre = c at hc hrun h3
+  have hb := close_bound c c' as h3.i1 hrun
+  refine ⟨hb, ?_, pend_end c c' as h3 hc hrun, pend_maximal c c' as h3 hc hrun, ?_⟩
+  · intro hlib
+    have h1 : as.countP isProgressAct = as.length := by
+      rw [List.countP_eq_length]
+      intro a ha
+      have := hlib a ha
+      cases a <;> simp_all [isProgressAct, isLibAct]
+    have h2 : as.countP isInjectAct = 0 := by
+      rw [List.countP_eq_zero]
+      intro a ha
+      have := hlib a ha
+      cases a <;> simp_all [isInjectAct, isLibAct]
+    rw [h1, h2] at hb
+    simp only [evW] at hb
+    omega
+  · intro hc'
+    exact close_completes c' (pend_inv3 c c' as h3 hrun) hc'
+
+/-- **No infinite run of a pending Close.** Any infinite schedule of progress actions — chosen by any
+    scheduler — is cut within `mu c + 1` steps: a scheduled action is not enabled, or Close has already
+    returned. (With `close_never_stuck`: a scheduler that keeps picking enabled library actions while any
+    exists cannot be cut before the return, hence returns Close within `mu c` steps.) -/
+theorem close_no_infinite_run (active : Bool) (pre : List Act) (f : Nat → Act)
+    (hf : ∀ n, isProgressAct (f n) = true) :
+    pend? (run (init active) pre) ((List.range (mu (run (init active) pre) + 1)).map f) = none :=
+  no_infinite_pending _ (inv3_run _ pre (inv3_init active)).i1 f hf
 
 /-! ## Non-vacuity -/
 
@@ -266,5 +441,27 @@ example : Closed (run (init true) ([.openEnter .background, .openArm, .openStart
 /-- …and the hypothesis of `no_orphan_generation` is satisfiable (Close returning in a reachable run). -/
 example : (step? (run (init true) ([.openEnter .background, .openArm, .openStartOk, .envSelected] ++
     (closeSchedule 0).dropLast)) .closeLoopsDone).isSome = true := by decide
+
+/-- The hypotheses of `close_terminates` are satisfiable: a reachable configuration with a Close pending
+    (here with a failure event and a live reconnect loop in flight), and a run of it to the return. -/
+example :
+    let pre : List Act := [.openEnter .background, .openArm, .openStartOk, .envSelected, .envDown, .supStep,
+      .reactCheck, .reactSpawn, .closeEnter]
+    closingApi (run (init true) pre).api = true ∧
+    (pend? (run (init true) pre) [.closeRequest, .reactTeardown, .supStep, .closeTeardown, .joinSeal 0,
+      .joinStop 0, .joinDone 0, .closeEpochDone, .supExit, .closeSupDone, .loopWake 0, .loopSleep 0,
+      .loopFence 0, .closeLoopsDone]).isSome = true := by decide
+
+/-- The hypotheses of `reopen_is_fresh` are satisfiable, and a reopened run exists that exercises the
+    renaming (a second generation is joined under its shifted index). -/
+example :
+    let c := run (init true) ([.openEnter .background, .openArm, .openStartOk, .envSelected] ++ closeSchedule 0)
+    Closed c ∧ supSt c = .nc ∧
+    (exec? (reopenJoin c .background) [.openArm, .openStartOk, .envDown, .supStep, .reactCheck, .reactSpawn,
+      .reactTeardown, .joinSeal 1, .joinStop 1, .joinDone 1, .loopWake 0]).isSome = true := by
+  refine ⟨?_, ?_, ?_⟩
+  · apply reachable_closed <;> decide
+  · decide
+  · decide
 
 end GoSecs.Props.C10
